@@ -15,6 +15,7 @@
    repaired code, and the witnesses stay in corpus/C13 (findings/C13.json: status fixed). *)
 From Coq Require Import ZArith NArith List.
 From BHS Require Import Store ChainSpec ChainInv ChainMain Locator LocatorProofs.
+From BHSGen Require Import Params.
 Import ListNotations.
 Open Scope Z_scope.
 
@@ -50,13 +51,28 @@ Theorem C13_locator_length : forall s t, Valid s -> tipB s = Some t -> height t 
   exists l, latest_locator s = Some l /\ Z.of_nat (length l) = max_entries (height t) /\ max_entries (height t) <= 43.
 Proof. exact locator_length_thm. Qed.
 
-(* which headers: for every locator (also empty) and every stop hash (also the genesis hash) the answer is the
+(* which headers: for every locator (also empty) of at most sql_max_vars = 32766 hashes (SQLite's bind-variable
+   limit; a getheaders message carries at most wire.MaxBlockLocatorsPerMsg = 500: C13_locate_wire) and every stop
+   hash (also the genesis hash) the answer is the
    specification's: the main-chain headers immediately following the highest locator entry on the main chain -
    from height 1 if none is - up to the stop hash when it lies ahead, at most cap; nothing when the stop is at or
    below the start (C13_spec_meaning spells the specification out) *)
-Theorem C13_locate : forall s locs stop, Valid s ->
+Theorem C13_locate : forall s locs stop, Valid s -> Z.of_nat (length locs) <= sql_max_vars ->
   answer (locate s locs stop) = spec_locate s locs stop.
 Proof. exact locate_matches_spec. Qed.
+
+(* every locator that fits into a getheaders message (wire.MaxBlockLocatorsPerMsg, regenerated every run) *)
+Theorem C13_wire_within_limit : max_block_locators_per_msg = 500 /\ max_block_locators_per_msg <= sql_max_vars.
+Proof. exact wire_locators_within_sql_limit. Qed.
+Theorem C13_locate_wire : forall s locs stop, Valid s -> Z.of_nat (length locs) <= max_block_locators_per_msg ->
+  answer (locate s locs stop) = spec_locate s locs stop.
+Proof. exact locate_wire. Qed.
+
+(* a longer locator makes the IN (...) statement fail ("too many SQL variables"): the request is refused, nothing is
+   sent - in particular never headers from a start below the locator's (C13_locate_safe covers this case too) *)
+Theorem C13_locate_too_long : forall s locs stop, sql_max_vars < Z.of_nat (length locs) ->
+  locate s locs stop = LErr ELocatorLookup /\ answer (locate s locs stop) = [].
+Proof. exact locate_too_long. Qed.
 
 (* for ALL locators and stop hashes: at most cap headers, ascending and parent-linked, only LONGEST_CHAIN rows
    (never stale or orphan), all above the start, contiguous from start+1 *)
@@ -130,7 +146,7 @@ Theorem C13_locator_length_any_work : forall s t, (exists tip, Inv s tip) -> tip
   exists l, latest_locator s = Some l /\ Z.of_nat (length l) = max_entries (height t) /\ max_entries (height t) <= 43.
 Proof. exact locator_length_any_work. Qed.
 
-Theorem C13_locate_any_work : forall s locs stop, (exists tip, Inv s tip) ->
+Theorem C13_locate_any_work : forall s locs stop, (exists tip, Inv s tip) -> Z.of_nat (length locs) <= sql_max_vars ->
   answer (locate s locs stop) = spec_locate_mc (tip_chain s) locs stop.
 Proof. exact locate_any_work. Qed.
 
@@ -171,6 +187,9 @@ Print Assumptions C13_gap_one.
 Print Assumptions C13_gap_double.
 Print Assumptions C13_locator_length.
 Print Assumptions C13_locate.
+Print Assumptions C13_wire_within_limit.
+Print Assumptions C13_locate_wire.
+Print Assumptions C13_locate_too_long.
 Print Assumptions C13_locate_safe.
 Print Assumptions C13_spec_meaning.
 Print Assumptions C13_example_locator.
